@@ -251,6 +251,46 @@ pub fn search(seed: u64, n: u64) {
         stats.case(&format!("small_tight size={} a={:?} b={:?}", size, a, b), crossing);
         check_pair(&mut stats, &a, &b, "small_tight", &format!("size{}", size));
     }
+    // structured pairs (own stream): (1) a straight line and a point-symmetric S-curve whose two ends and mid point lie ON the line - the
+    // ends are contacts at curve ends, the crossing in the middle is transversal; (2) a symmetric arch crossed at its apex (t = 1/2, where
+    // the 3/4 bound of the fat line is attained exactly) by a slanted line; half of them on integer coordinates
+    let mut rng_st = Rng(seed ^ 0x57C7C02);
+    for k in 0..(8 + n / 8) {
+        let round = |p: Coord2, on: bool| if on { Coord2(p.0.round(), p.1.round()) } else { p };
+        let int = k % 2 == 0;
+        if k % 4 < 2 {
+            let (p, q) = (round(Coord2(rng_st.r(5.0, 35.0), rng_st.r(5.0, 95.0)), int), round(Coord2(rng_st.r(65.0, 95.0), rng_st.r(5.0, 95.0)), int));
+            let d = q - p;
+            let (f0, f1) = if int { (0.125, 0.875) } else { let f = rng_st.r(0.05, 0.3); (f, 1.0 - f) };
+            let (s0, s3) = (p + d * f0, p + d * f1);
+            let nrm = Coord2(-d.1, d.0) * (rng_st.r(0.3, 0.9) / 1.0);
+            let v = d * rng_st.r(0.1, 0.5) + nrm * if rng_st.b() { 1.0 } else { -1.0 };
+            let line: Cubic = [p, p + d * (1.0 / 3.0), p + d * (2.0 / 3.0), q];
+            let sc: Cubic = [s0, s0 + v, s3 - v, s3];
+            let inside = |c: &Cubic| c.iter().all(|q| q.0 >= 0.0 && q.0 <= 100.0 && q.1 >= 0.0 && q.1 <= 100.0);
+            if !inside(&sc) { stats.count("gen.structured_outside_box"); continue; }
+            stats.count("class.line_vs_symmetric_s");
+            stats.case(&format!("line_vs_symmetric_s a={:?} b={:?}", line, sc), true);
+            check_pair(&mut stats, &line, &sc, "line_vs_symmetric_s", "line/s_shaped");
+        } else {
+            let (x0, w, h) = (rng_st.r(5.0, 30.0), rng_st.r(40.0, 65.0), rng_st.r(30.0, 90.0));
+            let y0 = rng_st.r(2.0, 8.0);
+            let (x0, w, h, y0) = if int { (x0.round(), (w / 2.0).round() * 2.0, (h / 4.0).round() * 4.0, y0.round()) } else { (x0, w, h, y0) };
+            let inset = w * if int { 0.25 } else { rng_st.r(0.1, 0.4) };
+            let arch: Cubic = [Coord2(x0, y0), Coord2(x0 + inset, y0 + h), Coord2(x0 + w - inset, y0 + h), Coord2(x0 + w, y0)];
+            let apex = bez(&arch, 0.5);
+            let slant = if k % 8 < 4 { 0.0 } else { rng_st.r(-0.8, 0.8) };
+            let dir = Coord2(slant, 1.0);
+            let (lo, hi) = (rng_st.r(5.0, (apex.1 - 1.0).max(6.0)), rng_st.r(3.0, (99.0 - apex.1).max(4.0)));
+            let (p, q) = (apex - dir * lo, apex + dir * hi);
+            let line: Cubic = [p, p + (q - p) * (1.0 / 3.0), p + (q - p) * (2.0 / 3.0), q];
+            let inside = |c: &Cubic| c.iter().all(|q| q.0 >= 0.0 && q.0 <= 100.0 && q.1 >= 0.0 && q.1 <= 100.0);
+            if !inside(&line) || !inside(&arch) { stats.count("gen.structured_outside_box"); continue; }
+            stats.count("class.arch_crossed_at_apex");
+            stats.case(&format!("arch_crossed_at_apex a={:?} b={:?}", arch, line), true);
+            check_pair(&mut stats, &arch, &line, "arch_crossed_at_apex", "arch/line");
+        }
+    }
     for _ in 0..n {
         let (a, b, class, kinds) = gen_pair_of_curves(&mut rng, &mut stats);
         stats.count(&format!("class.{}", if class.is_empty() { "generic" } else { class }));
